@@ -961,7 +961,11 @@ class URL:
                 return from_parts(self._scheme, self._netloc, path, "", "")
             return self
         parts = path.split("/")
-        return from_parts(self._scheme, self._netloc, "/".join(parts[:-1]), "", "")
+        # keep the root of a rooted path that has no authority to imply it
+        root = "/" if path[0] == "/" and not self._netloc else ""
+        return from_parts(
+            self._scheme, self._netloc, "/".join(parts[:-1]) or root, "", ""
+        )
 
     @cached_property
     def raw_name(self) -> str:
